@@ -783,7 +783,17 @@ class ExprMixin:
                             and n.targets[0].id == attr:
                         self.spec_depth += 1
                         try:
-                            res = self.ev(n.value, State())
+                            # a class body sees the class attributes bound before it (X = (Y, Y) with Y assigned above)
+                            scope = State()
+                            for m_ in c.body:
+                                if m_ is n:
+                                    break
+                                if isinstance(m_, ast.Assign) and len(m_.targets) == 1 and isinstance(m_.targets[0], ast.Name):
+                                    try:
+                                        scope.vars[m_.targets[0].id] = self.ev(m_.value, scope)
+                                    except Unsupported:
+                                        pass
+                            res = self.ev(n.value, scope)
                         finally:
                             self.spec_depth -= 1
             except front.Missing:
@@ -959,6 +969,12 @@ class ExprMixin:
                                             z3.And(0 <= inv(j), inv(j) < src.n, z3.substitute(P, (i, inv(j))), pos(inv(j)) == j,
                                                    z3.Select(res.a, j) == z3.substitute(pack(elt), (i, inv(j)))))))
         st.assume(z3.ForAll([i, i2], z3.Implies(z3.And(0 <= i, i < i2, i2 < src.n, P, P2), pos(i) < pos(i2))))
+        # when every element satisfies the predicate nothing is dropped (the pigeonhole step the solver cannot find by itself)
+        i3 = z3.Int(fresh_name("fi3"))
+        P3 = z3.substitute(P, (i, i3))
+        st.assume(z3.Implies(z3.ForAll([i3], z3.Implies(z3.And(0 <= i3, i3 < src.n), P3)),
+                             z3.And(res.n == src.n, z3.ForAll([i], z3.Implies(z3.And(0 <= i, i < src.n), pos(i) == i),
+                                                              patterns=[pos(i)]))))
         self.trusted_axioms.add("a filtered comprehension / filter() is the order-preserving subsequence of the elements "
                                 "satisfying the predicate (axiomatised with a position function)")
         return res
